@@ -117,6 +117,9 @@ func (h *historyBuffer) ResetWithIndex(index uint64) {
 	h.head = 0
 	h.tail = 0
 	h.flushCount = defaultFlushCount
+	// persist the new index: otherwise a restart before the next flush falls back to the
+	// index persisted before the reset, which can be arbitrarily far away.
+	h.persist()
 }
 
 func (h *historyBuffer) GetNextIndex() uint64 {
